@@ -57,8 +57,9 @@ var (
 	VerifOddTableEntry  func(i, j int) (x, y *VerifFE)
 	VerifTableBytesNil  func() bool
 
-	VerifScalarPow2k func(s, a *Scalar, k uint) *Scalar
-	VerifHalfNSat    func() [4]uint64
+	VerifScalarPow2k           func(s, a *Scalar, k uint) *Scalar
+	VerifHalfNSat              func() [4]uint64
+	VerifScalarReduceSaturated func(dst, src *[4]uint64) uint64
 
 	// Lookups on caller-built tables, run inside a canary-guarded destination.
 	// Projective: tbl[i] = {x,y,z} limbs (stored form), pre = prefill of out (x,y,z limbs, isValid).
